@@ -165,14 +165,27 @@ func staticCallee(c ssa.CallInstruction) *ssa.Function {
 	return closureOf(cc.Value)
 }
 
+// unbound resolves the synthetic wrapper of a method value (x.m used as a func) to the method.
+func unbound(f *ssa.Function) *ssa.Function {
+	if f == nil || f.Synthetic == "" || !strings.HasSuffix(f.Name(), "$bound") {
+		return f
+	}
+	if obj, ok := f.Object().(*types.Func); ok && f.Prog != nil {
+		if m := f.Prog.FuncValue(obj); m != nil {
+			return m
+		}
+	}
+	return f
+}
+
 func closureOf(v ssa.Value) *ssa.Function {
 	switch v := v.(type) {
 	case *ssa.MakeClosure:
 		if f, ok := v.Fn.(*ssa.Function); ok {
-			return f
+			return unbound(f)
 		}
 	case *ssa.Function:
-		return v
+		return unbound(v)
 	case *ssa.UnOp:
 		if v.Op == token.MUL {
 			if st := singleStore(v.X); st != nil {
